@@ -85,7 +85,7 @@ def run_unit(unit_name, tier, seed, only_props=None):
             def _txt(b):
                 return b.decode("utf-8", "replace") if isinstance(b, bytes) else (b or "")
             out = _txt(te.stdout) + _txt(te.stderr)
-            hung = re.findall(r"N\dCASE ([^\n]*)", out)
+            hung = re.findall(r"N\d+CASE ([^\n]*)", out)
             if hung:
                 # the real code was handed a case that terminates under the reference semantics and did not come back
                 out += "\nthread 'x' (0) panicked at src/<real code>:0:0:\ndid not return within %d s (the reference semantics halts on this case)\n" % getattr(unit, "TIMEOUT", 1800)
@@ -111,11 +111,17 @@ def run_unit(unit_name, tier, seed, only_props=None):
         real_panic = None
         for pm in re.finditer(r"thread '[^']*' \(\d+\) panicked at ([^\n]+?):(\d+):(\d+):\n([^\n]*)", out):
             if "verif_n" not in pm.group(1):
-                last = re.findall(r"N\dCASE ([^\n]*)", out)
+                last = re.findall(r"N\d+CASE ([^\n]*)", out)
                 real_panic = "the real code panicked at %s:%s: %s%s" % (pm.group(1), pm.group(2), pm.group(4)[:200], ("; last case started: " + last[-1][:300]) if last else "")
                 break
         if real_panic and not ub:
             ub = real_panic
+        sig = re.search(r"process didn't exit successfully:[^\n]*\(signal: (\d+)[^\n]*\)", out)
+        if sig and not ub:
+            # the test binary was killed by a signal while it ran the real code (the overlaid test
+            # module itself contains no unsafe code that could do that)
+            last = re.findall(r"N\d+CASE ([^\n]*)", out)
+            ub = "the real code crashed the test process (signal %s)%s" % (sig.group(1), ("; last case started: " + last[-1][:300]) if last else "")
         if not lines and not result["error"] and not ub:
             errs = re.findall(r"^error.*(?:\n.*){0,8}", out, re.M)
             result["error"] = "native stage produced no result (does the overlay still compile against /repo?): " + "\n".join(errs[:2])[:900]
